@@ -165,7 +165,9 @@ def make_record(g, rng, walk, name, offsets="any", tags="safe", mapq=None, cigar
     if rng.random() < 0.12:
         # read names as sequencers and pipelines write them: any printable non-blank characters, any length
         name = rng.choice([name + "@HG002/42/ccs", "m64011_190830/" + name + "/ccs", name + "|" + "x" * rng.randint(250, 300),
-                           "#" + name, "@" + name, name + ":1=2;3,4", name + "\u00e9", '"' + name, '"HG002"_' + name, name + "'s", "lib3_GC50%_" + name + "/17", name + "_100%"])
+                           "#" + name, "@" + name, name + ":1=2;3,4", name + "\u00e9", '"' + name, '"HG002"_' + name, name + "'s", "lib3_GC50%_" + name + "/17", name + "_100%",
+                           # white space that is not the blank (U+0020): part of the name like any other character
+                           name + "\u00a0lane7", name + "\u3000x", "s\u202f7_" + name, name + "\u2003tile9"])
     qname = name + (" extra=1 desc" if name_space else "")
     cols = [qname, str(qlen), str(qs), str(qs + qspan), "+", rgfa.path_str(walk), str(L), str(ps), str(pe),
             str(matches), str(block), str(mapq)]
